@@ -61,6 +61,7 @@ func vfFaultPool() []error {
 		&os.SyscallError{Syscall: "write", Err: syscall.ECONNRESET},
 		fmt.Errorf("backend: %w", syscall.ENOSPC),
 		syscall.EIO,
+		&net.OpError{Op: "read", Net: "vf", Err: net.ErrClosed},
 	}
 }
 
